@@ -765,7 +765,9 @@ def call_semantics(ctx: Ctx):
     T0 = A.Sym("str", "TEXT0")
     # one field of every kind a caller may pass (opaque and concrete): conversions that only touch some kinds must show
     fields = {"user_id": A.Sym("int", "FIELD:user_id"), "country": A.Sym("str", "FIELD:country"), "flag": True, "extra": None,
-              "ratio": 2.0, "score": 0.5, "big": 10 ** 30, "label": A.Tmpl.lit("x"), "pair": A.AList([1, A.Tmpl.lit("a")], "tuple")}
+              "ratio": 2.0, "score": 0.5, "big": 10 ** 30, "label": A.Tmpl.lit("x"), "pair": A.AList([1, A.Tmpl.lit("a")], "tuple"),
+              # keyword arguments are dictionary keys: any spelling can arrive (**row), also a Python keyword and its usual stand-in
+              "class": A.Sym("str", "FIELD:class"), "class_": A.Sym("str", "FIELD:class_")}
     # a field may have ANY name, also the name of a parameter that __call__ (or a method it forwards to) declares: a keyword-capable
     # parameter takes such a field away from the experiment
     try:
